@@ -111,3 +111,9 @@ PROPS["C06"] = dict(pkg="c06", shards=16, level="exploration", overlay=True,
     level_text="Exploration of a delay-bounded subset of schedules: every statement of atp/client.go and atp/server.go is a yield point (re-derived from the working tree on every run); the quick tier delays each reached point at its first and second occurrence on five session histories (exhaustive for that plan space), the thorough tier adds all ordered pairs of points on two histories and generated 1-3-delay plans. Real client and server over unbuffered pipes.",
     level_note="Not all interleavings: only those reachable by one to three injected delays on the statement grid. Liveness is judged on bounded histories: a call is reported as hanging only if all delays are over and two goroutine dumps 300 ms apart are identical and fully parked; anything else that exceeds the bounds is counted as inconclusive, never as a violation.",
     cap_s={"quick": 900, "thorough": 3400})
+
+PROPS["C05"] = dict(pkg="c05", shards=16, level="exploration",
+    technique="property-based testing (rapid) of whole ATP sessions over a harness-owned fragmenting / coalescing transport; oracle = differential against in-process CallStep on a second identically built schema, tag-based delivery check, independent parse of the wire tap, overlapping-write detection",
+    level_text="Exploration: generated plugin schemas, inputs, call histories (serial / concurrent / staggered, with unsolicited trailing server frames) and transport plans (unbuffered, or buffered with arbitrary fragment sizes, coalescing, mid-message read ends and split writes) run through the real client and server (v3) or a harness v1 server; every result is compared with the in-process result of the same step on an identical schema.",
+    level_note="Concurrent calls are not asserted over the v1 framing (its frames carry no run ID); interleavings are those the scheduler produces under the generated transport timing (C06 explores schedules systematically); a call not returning within 30 s on a healthy connection is reported as lost.",
+    cap_s={"quick": 900, "thorough": 3400})
